@@ -118,7 +118,11 @@ func Specs() []TypeSpec {
 		{
 			Name: "jwt_meta", Kind: KindAuthenticator, Type: "jwt", Metadata: true,
 			Cat: map[string]any{
-				"metadata_endpoint": map[string]any{"url": "{S}/meta", "disable_issuer_identifier_verification": true},
+				"metadata_endpoint": map[string]any{
+					"url": "{S}/meta", "disable_issuer_identifier_verification": true,
+					// custom headers without Accept: the resolver adds its default to a copy
+					"headers": map[string]any{"X-Static": "cat", "X-Meta": "m"},
+				},
 				"assertions":        map[string]any{"audience": []any{"aud-a"}},
 			},
 			Overrides: assertionOverrides[1:],
@@ -137,7 +141,11 @@ func Specs() []TypeSpec {
 		{
 			Name: "oauth2_introspection_meta", Kind: KindAuthenticator, Type: "oauth2_introspection", Metadata: true,
 			Cat: map[string]any{
-				"metadata_endpoint": map[string]any{"url": "{S}/meta", "disable_issuer_identifier_verification": true},
+				"metadata_endpoint": map[string]any{
+					"url": "{S}/meta", "disable_issuer_identifier_verification": true,
+					// custom headers without Accept: the resolver adds its default to a copy
+					"headers": map[string]any{"X-Static": "cat", "X-Meta": "m"},
+				},
 				"assertions":        map[string]any{"audience": []any{"aud-a"}},
 			},
 			Overrides: assertionOverrides[1:],
@@ -165,7 +173,8 @@ func Specs() []TypeSpec {
 				},
 				"payload":                              `{"sub":"{{ .Subject.ID }}","v":"cat"}`,
 				"expressions":                          []any{map[string]any{"expression": "Payload.allowed == true", "message": "cat"}},
-				"forward_response_headers_to_upstream": []any{"X-Authz"},
+				// deliberately not in sorted order
+				"forward_response_headers_to_upstream": []any{"X-Other", "X-Authz", "X-More"},
 				"cache_ttl":                            "90s",
 				"values":                               map[string]any{"a": "a-cat", "b": "b-cat"},
 			},
@@ -173,7 +182,7 @@ func Specs() []TypeSpec {
 				{"payload": `{"sub":"{{ .Subject.ID }}","v":"o1"}`},
 				{"values": map[string]any{"a": "a-o2", "b": "b-cat"}},
 				{"cache_ttl": "150s"},
-				{"forward_response_headers_to_upstream": []any{"X-Other"}},
+				{"forward_response_headers_to_upstream": []any{"X-More", "X-Authz"}},
 				{"expressions": []any{map[string]any{"expression": "Payload.level > 5", "message": "o5"}}},
 			},
 			Subjects: []string{"alice"},
